@@ -88,3 +88,20 @@ func dec(s string) string {
 	}
 	return s
 }
+
+// otherClass renders an error text the harness cannot classify as one token `other(...)`: letters,
+// digits and underscores only (no separators of the line protocol), at most 60 characters. The
+// comparison treats such a token as "some error" (see same_observation in ./check and looseEq in
+// Driver/Common.lean): the properties speak of rejections and effects, not of message wording.
+func otherClass(msg string) string {
+	if len(msg) > 60 {
+		msg = msg[:60]
+	}
+	b := []byte(msg)
+	for i, ch := range b {
+		if !(ch >= 'a' && ch <= 'z' || ch >= 'A' && ch <= 'Z' || ch >= '0' && ch <= '9') {
+			b[i] = '_'
+		}
+	}
+	return "other(" + string(b) + ")"
+}
